@@ -1,9 +1,14 @@
 // ---- shim socks5_env ----
 // ---- the client object as the front-ends see it (opaque): create_proxy_stream either establishes a tunnel to exactly
 // the destination it was given or fails.  Its own body is unit `client` (address encoding + verdict wait).
-pub ghost struct TunnelEv { pub host: Seq<char>, pub port: u16 }
+// the log of one front-end connection: the tunnel it opened; the end of data it announced on that tunnel's stream (FIN); the hand-back of the session
+pub ghost enum TunnelEv { Tunnel { host: Seq<char>, port: u16 }, Fin, Released }
 pub struct ProxyStream { pub id: u32, pub ghost dest_host: Seq<char>, pub ghost dest_port: u16 }
-impl ProxyStream { pub fn id(&self) -> (r: u32) ensures r == self.id { self.id } }
+impl ProxyStream {
+    pub fn id(&self) -> (r: u32) ensures r == self.id { self.id }
+    // Stream::send_fin (group `stream`)
+    #[verifier::external_body] pub fn send_fin(&self, fx: &mut Ghost<Seq<TunnelEv>>) ensures final(fx)@ == old(fx)@.push(TunnelEv::Fin) { }
+}
 pub struct ProxySession { pub _p: () }
 impl ProxySession { #[verifier::external_body] pub fn is_closed(&self) -> bool { unimplemented!() } }
 pub struct Client { pub _p: () }
@@ -12,9 +17,12 @@ impl Client {
     #[verifier::external_body]
     pub fn create_proxy_stream(&self, destination: (String, u16), fx: &mut Ghost<Seq<TunnelEv>>) -> (r: Result<(Arc<ProxyStream>, Arc<ProxySession>)>)
         ensures r is Ok ==> r->Ok_0.0.dest_host == destination.0@ && r->Ok_0.0.dest_port == destination.1
-                    && final(fx)@ == old(fx)@.push(TunnelEv { host: destination.0@, port: destination.1 }),
+                    && final(fx)@ == old(fx)@.push(TunnelEv::Tunnel { host: destination.0@, port: destination.1 }),
                 r is Err ==> final(fx)@ == old(fx)@
     { unimplemented!() }
+    // Client::release_session (group `pool`)
+    #[verifier::external_body]
+    pub fn release_session(&self, session: Arc<ProxySession>, fx: &mut Ghost<Seq<TunnelEv>>) ensures final(fx)@ == old(fx)@.push(TunnelEv::Released) { }
 }
 pub use std::sync::Arc;
 impl Clone for Socks5Addr { #[verifier::external_body] fn clone(&self) -> (r: Self) ensures r == *self { unimplemented!() } }
